@@ -125,6 +125,28 @@ void harness(void) {
 '''
 PERM_STUBS = {'OpenVolumeMesh::TopologyKernel::add_cell': '{ base_calls++; base_n = (int)_halffaces.size; for (int i = 0; i < 6; i++) base_list[i] = (unsigned long)i < _halffaces.size ? _halffaces.data[i].idx_ : -7; base_flag = _topologyCheck; struct CH r; r.idx_ = 77; return r; }'}
 PERM_PRE = 'int base_calls; int base_list[6]; int base_n; _Bool base_flag;\n'
+static_decoy = '''
+static void hx_cube_with_decoy(HMESH *m) {
+  tk_init(m);
+  for (int i = 0; i < 9; i++) TopologyKernel__add_vertex((TK *)m);
+  shape_face((TK *)m, 4, 3, 2, 1, 8);      /* a "doublet" partner of the x-front face (3,2,1,0): same two consecutive edges, foreign fourth vertex */
+  static const int A[8] = {0, 1, 2, 3, 4, 5, 6, 7};
+  struct vec_VH la = hx_list8(A);
+  struct CH c0 = HexahedralMeshTopologyKernel__add_cell__std_vector_VH__r_bool(m, &la, 1);
+  if (c0.idx_ != 0) m->cells_.size = 0;
+}
+'''
+DECOY_H = '''
+void harness(void) {
+  TK m0; { static const int W0[] = {SHAPE_W}; int aa[4]; unwitness(W0, &m0, aa); }
+  HMESH hm = *(HMESH *)&m0; TK *m = (TK *)&hm;
+  __CPROVER_assert(m->cells_.size == 1 && wf(m), "C16.decoy.the_cell_is_created_next_to_a_quad_that_shares_three_vertices_with_one_of_its_faces");
+  __CPROVER_assert(m->cells_.size != 1 || hx_convention(m, 0), "C16.decoy.the_cell_follows_the_convention (opposite halffaces share no vertex: the foreign quad is not taken for a face of the cell)");
+  _Bool own = 1; for (int k = 0; k < 6; k++) for (int i = 0; i < 4; i++) if (m->cells_.size == 1 && spec_hf_vertex(m, CHF(m, 0, k), i) == 8) own = 0;
+  __CPROVER_assert(own, "C16.decoy.every_face_of_the_cell_lies_on_its_own_eight_vertices");
+  __CPROVER_assert(m->faces_.size == 7, "C16.decoy.six_new_faces_were_created_besides_the_decoy");
+}
+'''
 static_cube = '''
 static void hx_cube_faces(HMESH *m) {
   tk_init(m);
@@ -151,6 +173,10 @@ def obligations():
                       inits={'tk_init': HK}, preamble_after=HEXHELP, circ_class='HexahedralMeshTopologyKernel', unwind=50, unwind_start=12, timeout=3000, prebuild_shape=100, prebuild_call='hx_two_cubes((HMESH *)&m);', enum=en,
                       bounds=dict(scenario='two hexahedra sharing a face, built natively by the extracted add_cell(8 vertices)', symbolic='reference cell, laps, sheet direction, reference halfface'),
                       note='two hexahedra built through the real add_cell(8 vertices): %s against a hand-written specification' % part))
+    obs.append(Ob(id='C16.add_cell_vertices.decoy_quad', props=['C16', 'C10'], quick_for=['C16'], tu='tethex', cfg='hex', tier='B', roots=roots, harness=DECOY_H, includes=inc, copies=[TK, HK], defines=dict(HEXDEFS, LV=9, PV=9, LE=14, PE=14, LF=7, PF=7, LC=1, PC=1),
+                  inits={'tk_init': HK}, preamble_after=HEXHELP + static_decoy, unwind=40, unwind_start=12, timeout=3000, prebuild_shape=102, prebuild_call='hx_cube_with_decoy((HMESH *)&m);',
+                  bounds=dict(scenario='add_cell(8 vertices) on a mesh that already holds a quad over three of the x-front vertices plus a foreign vertex'),
+                  note='add_cell(8 vertices) must find its faces by all four vertices: with a decoy quad present the cell still has its own six faces in convention order'))
     P5 = ', '.join('{%d,%d,%d,%d,%d}' % p for p in itertools.permutations(range(5)))
     for first in range(6):
         roots_perm = [r for r in roots if r != TK + '::add_cell']
